@@ -57,7 +57,7 @@ CLAIMED = {
          "Textual comparison under the same PYTHONHASHSEED; eval() of the printed line only excuses; unparseable output is inconclusive.", "5/C16"),
 }
 COMMON = (" Every workload also runs, per interpreter, in one interpreter-mode twin shard: python -O/-OO -b, warnings issued from the library's "
-          "modules are errors, the library imported as a vendored copy (vnd_pkg.code_data) next to a top-level one; workers run under varied "
+          "modules are errors, the library imported as a vendored copy (vnd_pkg.code_data) next to a top-level one, and the shard's cases run after a burst of ~10 000 calls the library rejects (fault storm: failure atomicity); workers run under varied "
           "PYTHONHASHSEED values; corpora include code objects whose identifiers/texts were rewritten through the AST and whose constants are "
           "look-alikes of other constants' keys (DESIGN.md section 13a).")
 EXTRA = {
